@@ -128,11 +128,11 @@ class ExprMixin:
         return [(p, self.lookup_name(node.id, p, node))]
 
     def lookup_name(self, name, p: Path, node=None):
+        if self.spec_mode and name in self.spec_env:
+            return self.spec_env[name]      # contract variables shadow the locals of the frame being executed
         v = p.frame.lookup(name)
         if v is not None:
             return v
-        if self.spec_mode and name in self.spec_env:
-            return self.spec_env[name]
         g = self.lookup_global(name, p.frame.mod, p)
         if g is not None:
             return g
